@@ -2,4 +2,8 @@ import BalmProofs.Props.C04
 #print axioms Balm.Props.C04.init_inv
 #print axioms Balm.Props.C04.expandNode_inv
 #print axioms Balm.Props.C04.expandBfs_inv
+#print axioms Balm.Props.C04.expandDfs_inv
+#print axioms Balm.Props.C04.expandToTarget_inv
+#print axioms Balm.Props.C04.expandMinimal_inv
+#print axioms Balm.Props.C04.plain_history_inv
 #print axioms Balm.concrete_plain_history_inv
